@@ -50,13 +50,16 @@ def _absw(absolute, case):
 
 
 def absh(case):
+    """absolute_height (decorated by handle_min_max_height) on a stub box with Fraction fields."""
     from weasyprint.layout import absolute
     box = SimpleNamespace(
         top=_v(case['l']), bottom=_v(case['r']), height=_v(case['w']),
         margin_top=_v(case['ml']), margin_bottom=_v(case['mr']),
         padding_top=Fraction(case['pl']), padding_bottom=Fraction(case['pr']),
         border_top_width=Fraction(case['bl']), border_bottom_width=Fraction(case['br']),
-        position_x=Fraction(0), position_y=Fraction(case['px']), style=_style(True))
+        position_x=Fraction(0), position_y=Fraction(case['px']), style=_style(True),
+        min_height=Fraction(case['minw']),
+        max_height=(float('inf') if case['maxw'] == 'inf' else Fraction(case['maxw'])))
     tbh, ty = absolute.absolute_height(box, None, Fraction(0), Fraction(case['cbx']), Fraction(0), Fraction(case['cbw']))
     return [_s(box.height), _s(box.margin_top), _s(box.margin_bottom), bool(tbh), str(Fraction(ty)),
             str(box.position_y)]
@@ -254,11 +257,23 @@ def render_floats(case):
         # position decided by float.py and the rank of this call (the order in which floats are placed)
         placed[id(new)] = (new.position_x, new.position_y, len(placed), stale, via)
         return new
+    from weasyprint.layout import inline as il
+    ws_shift = {}
+    orig_rlw = il.remove_last_whitespace
+
+    def logging_remove_last_whitespace(context, line):
+        before = [(c, c.position_x) for c in line.children]
+        orig_rlw(context, line)
+        moved = [c.position_x - x for c, x in before if c.position_x != x]
+        if moved:
+            ws_shift[id(line)] = moved[0]        # the rtl branch translated the children of the line
     fl.find_float_position = logging_find_float_position
+    il.remove_last_whitespace = logging_remove_last_whitespace
     try:
         pages = render_pages(case['html'])
     finally:
         fl.find_float_position = orig
+        il.remove_last_whitespace = orig_rlw
     recs = []
     counter = [0]
     # source (document) order of the elements
@@ -349,6 +364,7 @@ def render_floats(case):
                     for c in b.children:
                         scan(c)
                     rec['float_after_content'] = after
+                    rec['ws_shift'] = ws_shift.get(id(b), 0)
                 if kind == 'float':
                     pl = placed.get(id(b))
                     rec['placed'] = pl[:2] if pl else None
